@@ -1,6 +1,6 @@
 #!/bin/sh
 for i in 01 02 03 04 05 06 07 08 09 10 11 12 13 14 15 16 17 18 19 20; do
   s=$(date +%s)
-  ./check C$i --tier thorough --jobs 10 2>&1 | grep -E "tier=|VIOLATION|HARNESS|WARNING" | cut -c1-300
+  ./check C$i --tier thorough --jobs ${JOBS:-10} 2>&1 | grep -E "tier=|VIOLATION|HARNESS|WARNING" | cut -c1-300
   echo "C$i wall=$(( $(date +%s) - s ))s"
 done
